@@ -155,17 +155,41 @@ void tokenizer_free(TOKEN_SCANNER scanner)
 
 YY_BUFFER_STATE tokenizer_buf(TOKEN_SCANNER scanner)
 {
-  char str[1024];
   /* check the reader exists */
   if (scanner->reader != 0)
   {
-    int n = 0;
-    scanner->reader(scanner->handle, str, &n, 1023);
-    if (n > 0)
+    /* A buffer is scanned on its own, therefore it must hold whole lines:
+     * otherwise a number, a keyword, an operator, a string escape or a comment
+     * mark that straddles two buffers is split in two tokens. As the reader
+     * can deliver a line in several fragments (line longer than the read
+     * size, or fragmented stream), fill until the end of line or of stream. */
+    YY_BUFFER_STATE buf = 0;
+    size_t len = 0, cap = 2048;
+    char * str = (char*) malloc(cap);
+    if (str == 0)
+      return 0;
+    for (;;)
     {
-      str[n] = '\0';
-      return yy_scan_string(str, scanner->scanner);
+      int n = 0;
+      if (cap - len < 1024)
+      {
+        char * tmp = (char*) realloc(str, cap * 2);
+        if (tmp == 0)
+          break;
+        str = tmp;
+        cap *= 2;
+      }
+      scanner->reader(scanner->handle, str + len, &n, 1023);
+      if (n <= 0)
+        break;
+      len += (size_t) n;
+      if (str[len - 1] == '\n')
+        break;
     }
+    if (len > 0)
+      buf = yy_scan_bytes(str, (int) len, scanner->scanner);
+    free(str);
+    return buf;
   }
   return 0;
 }
